@@ -64,7 +64,13 @@ SelJ == {Sel(j, cols, cond) :
            j \in {Join(k, T(A), T(B), EqC(Dot(A, K), Dot(B, K))) : k \in Kinds},
            cols \in {<<>>, <<Dot(B, W), Dot(A, K)>>, <<Dot(A, K), Dot(A, K)>>, <<K>>},
            cond \in {True, EqL(Dot(B, W), Null), EqL(Dot(A, V), IntV(1)), EqL(W, IntV(1))}}
-Queries == Bases \cup Depth1Sel \cup Joins1 \cup Joins2 \cup JJ \cup SelJ
+\* builder chains: a second columns() replaces the first (whose names are then never looked up),
+\* a second with() is AND-ed; both conditions are resolved against the unprojected input
+Chains == {Sel(Sel(T(A), c1, e1), c2, e2) :
+             c1 \in {<<>>, <<V>>, <<Z>>}, c2 \in {<<>>, <<K>>, <<V, K>>},
+             e1 \in {True, EqL(V, IntV(1)), EqL(Z, IntV(1))}, e2 \in {True, EqL(K, IntV(2)), Un("not", Col(V))}}
+          \cup {Join(k, Sel(Sel(T(A), <<V>>, True), <<K>>, EqL(V, IntV(1))), T(B), EqC(K, Dot(B, K))) : k \in Kinds}
+Queries == Bases \cup Depth1Sel \cup Joins1 \cup Joins2 \cup JJ \cup SelJ \cup Chains
 
 ResultJ(r) ==
   IF IsErr(r) THEN [err |-> 1]
